@@ -555,6 +555,7 @@ def main(argv):
     kinds = {}
     unfair_cut = 0
     determinism_checks = 0
+    stuck = 0
     for i in range(n_sched):
         R, sync, n, nb, k = g[i % len(g)]
         # second and third calls use different n to exercise the sync_frequency adjustment
@@ -573,7 +574,7 @@ def main(argv):
         cfg = Cfg(R=R, sync=sync, calls=ns, nb=nb, cost=cost, pop=rng.choice((4, 6, 7)),
                   hof=rng.random() < 0.8, suppress=rng.random() < 0.6, pre_evaluate=rng.random() < 0.5,
                   rng_seed=rng.randrange(1 << 20), sync_collectives=rng.random() < 0.7,
-                  max_steps=8000 if pdesc[0] == "pct" else 400000, wall_limit=120.0)
+                  max_steps=8000 if pdesc[0] == "pct" else 400000, wall_limit=45.0)
         res = run_scenario(cfg, make_policy(pdesc))
         kinds[pdesc[0]] = kinds.get(pdesc[0], 0) + 1
         tally.add(cfg, pdesc, res, "random")
@@ -589,6 +590,16 @@ def main(argv):
                              {"key": "stub-nondeterminism", "desc": "same policy/seed or explicit replay gave a different log"}, "random")
         if res.verdict not in ("ok", "error"):
             print(f"NOTE verdict={res.verdict} cfg=({cfg}) policy={pdesc[:2]} steps={res.steps} blocked={res.blocked}", flush=True)
+        if res.verdict in ("step-limit", "wallclock", "stub-stall"):
+            # a fair schedule within the speed assumption under which the call did not return on every rank (e.g. some ranks
+            # blocked in the migration exchange while another spins in the next call): the property's termination clause
+            stuck += 1
+            tally.report(cfg, pdesc, res.schedule, res.verdict,
+                         {"key": "no-return-under-fair-schedule",
+                          "desc": f"verdict {res.verdict} after {res.steps} scheduler steps; blocked ranks: {res.blocked}"}, "random")
+            if stuck >= 3:
+                print(f"NOTE stopping the random part after {stuck} runs that did not return", flush=True)
+                break
     tally.flush()
     print(f"random part: runs={tally.runs} policies={kinds} verdicts={tally.verdicts} steps={tally.steps} "
           f"traces={tally.traces} validated={tally.traces_ok} prefix-validated={tally.traces_prefix} "
